@@ -1,74 +1,30 @@
 """C05 — a Solution faithfully reports the evaluated problem (DESIGN §5 C05)."""
 from .common import *
-from .feas import check_feasibility_rule
+from .feas import check_feasibility_rule, origins, PathEval, const_operand, error_propagates, absent_inserts, false_leads_to_error, enum_tests, result_kind, f64_of_operand, item_calls
 
 INST = 'v1::Instance'; DV = 'v1::DecisionVariable'; CON = 'v1::Constraint'; RC = 'v1::RemovedConstraint'; EC = 'v1::EvaluatedConstraint'
 TOL_FEAS = 1e-6; TOL_BOUND = 1e-7
 
 
-def flag_chain(body, local):
-    """locals holding the same flag through plain copies, both directions (single statements)"""
-    seen = {local}; work = [local]
-    while work:
-        l = work.pop()
-        for k, bi, d in body.defs_of(l):
-            if k == 'stmt' and d['rv']['k'] == 'use' and d['rv']['ops'][0]['k'] in ('copy', 'move') and not d['rv']['ops'][0]['pl']['p']:
-                s = d['rv']['ops'][0]['pl']['l']
-                if body.locals[s] == 'bool' and s not in seen: seen.add(s); work.append(s)
-    return seen
+VIEW = 'norm'      # helpers unknown on the pinned tree inlined, adaptor chains as explicit loops
+
+CONV_DV = re.compile(r"TryFrom<&('\w+ )?v1::DecisionVariable>>::try_from|<&('\w+ )?v1::DecisionVariable as std::convert::TryInto<bound::Bound>>::try_into|TryInto<bound::Bound>>::try_into")
 
 
-def solution_rules(ctx, body):
+def item_evaluations(body, lo, ty):
+    return item_calls(body, lo, ty, 'evaluate')
+
+
+def _whole(l):
+    return {'k': 'copy', 'pl': {'l': l, 'p': []}}
+
+
+def flag_rules(ctx, body, sol, sbi, loops, feas_calls):
+    """Solution.feasible_relaxed == AND of is_feasible over the active constraints, Solution.feasible == that AND
+    the same over the removed ones.  Decided per loop as an induction step with the path evaluator (the flag is
+    sticky-false and otherwise takes this item's verdict), independent of how the update is written:
+        if f { f = x? }   ==   f = f && x?   ==   f &= x?   ==   let ok = x?; if f { f = ok }   ==   if f && !x? { f = false }"""
     R = 'C05'
-    # ---------------- bound check
-    cb = mustcall(ctx, R + '.bound/check_bound-dominates', body, lambda c: c.item == 'check_bound' and c.path.endswith('Instance>::check_bound'), 'self.check_bound(state, 1e-7)')
-    if cb is not None:
-        const_arg(ctx, R + '.bound/tolerance', body, cb, 2, TOL_BOUND, 'bound tolerance', tol=1e-9)
-        ctx.check(T.access_path(body, cb.args[0])[1] == 1 and T.access_path(body, cb.args[1])[1] == 2, R + '.bound/args', 'T-CARRY', body.name, 'check_bound is not applied to (self, state)', body.site(cb.bb))
-        # it must come before anything is evaluated
-        evs = [c for c in body.calls if c.item == 'evaluate' and 'Evaluate' in (c.trait or '')]
-        ctx.check(all(body.dominates(cb.bb, c.bb) for c in evs), R + '.bound/first', 'T-GUARD', body.name, 'an evaluation happens before the bound check', body.site(cb.bb))
-    # ---------------- coverage of the message
-    cover(ctx, R + '.cover', body, INST, exempt=('description', 'sense', 'parameters', 'constraint_hints'))
-    # ---------------- the Solution aggregate
-    aggs = find_aggregates(body, 'v1::Solution')
-    if len(aggs) != 1:
-        ctx.bad(R + '.solution/aggregate', 'ANCHOR', body.name, 'expected one v1::Solution aggregate, found %d' % len(aggs)); return
-    sbi, sol = aggs[0]
-    ctx.check(all(body.dominates(sbi, e) for e in body.strict_ok_exits()), R + '.solution/on-every-success-path', 'T-MUSTCALL', body.name, 'Solution aggregate does not dominate the Ok-exit', body.site(sbi))
-    # ---------------- both lists: evaluate every element, push exactly once
-    pushes = [c for c in body.calls if c.item == 'push' and 'Vec::<v1::EvaluatedConstraint>::push' in c.name]
-    feas_calls = [c for c in body.calls if c.item == 'is_feasible' and c.path.endswith('EvaluatedConstraint>::is_feasible')]
-    loops = {}
-    for field, ty in (('constraints', CON), ('removed_constraints', RC)):
-        ls = loops_over(ctx, body, INST, field)
-        ls = [l for l in ls if any(c.bb in l[4] for c in body.calls if c.item == 'evaluate' and c.is_(trait='Evaluate', self_ty=ty.replace('::', '::') + '$'))]
-        ctx.check(len(ls) == 1, R + '.lists/%s/loop' % field, 'T-LOOPMUST', body.name, 'expected one evaluation loop over self.%s, found %d' % (field, len(ls)), body.site())
-        if len(ls) != 1: continue
-        lo = ls[0]; loops[field] = lo
-        nextc, header, some_bb, none_bb, blocks = lo
-        ev = [c for c in body.calls if c.bb in blocks and c.item == 'evaluate' and c.is_(trait='Evaluate', self_ty=ty + '$')]
-        for c in ev:
-            ctx.check(nextc.dst['l'] in ctx.S.slice_operand(body, c.args[0]).locals and T.access_path(body, c.args[1])[1] == 2, R + '.lists/%s/evaluate-item-at-state' % field, 'T-CARRY', body.name,
-                      'evaluate is not applied to (loop item, state)', body.site(c.bb))
-            errflow_calls(ctx, R + '.lists/%s/error-propagates' % field, body, [c], 'constraint evaluation')
-        loop_must(ctx, R + '.lists/%s/evaluate-every' % field, body, lo, lambda c: c in ev, 'evaluate')
-        ps = [c for c in pushes if c.bb in blocks]
-        ctx.check(len(ps) == 1, R + '.lists/%s/one-push' % field, 'T-LOOPMUST', body.name, 'expected one push per iteration, found %d' % len(ps), body.site(nextc.bb))
-        loop_must(ctx, R + '.lists/%s/push-every' % field, body, lo, lambda c: c in ps, 'evaluated_constraints.push')
-        for c in ps:
-            s = ctx.S.slice_operand(body, c.args[1])
-            ctx.check(any(e in s.call_objs for e in ev) and not any(x.item == 'clone' for x in s.call_objs), R + '.lists/%s/push-is-result' % field, 'T-CARRY', body.name, 'pushed value is not the evaluation result', body.site(c.bb))
-            # the pushed element is not modified between evaluation and push
-            chain = {l for l in s.locals if re.fullmatch(r'v1::EvaluatedConstraint', body.locals[l])}
-            touched = [body.site(bi) for bi, st in body.stmts() if (st['rv']['k'] == 'ref' and st['rv'].get('mut') and st['rv']['pl']['l'] in chain) or (st['dst']['p'] and st['dst']['l'] in chain)]
-            ctx.check(not touched, R + '.lists/%s/push-unmodified' % field, 'T-CARRY', body.name, 'evaluated constraint is modified before it is pushed (%s)' % touched, body.site(c.bb))
-        ctx.check(all(body.dominates(header, e) for e in body.strict_ok_exits()), R + '.lists/%s/dominates' % field, 'T-MUSTCALL', body.name, 'loop does not dominate the Ok-exit', body.site(nextc.bb))
-    ctx.check(len(pushes) == 2, R + '.lists/two-pushes', 'T-LOOPMUST', body.name, 'expected two pushes onto the evaluated list, found %d' % len(pushes), body.site())
-    ec = carry_field(ctx, R + '.lists/solution-field', body, sol, 'evaluated_constraints', need_fields=[(INST, 'constraints'), (INST, 'removed_constraints')], site=body.site(sbi))
-    if ec is not None:
-        ctx.check(all(p in ec.call_objs for p in pushes), R + '.lists/solution-field-is-the-list', 'T-CARRY', body.name, 'Solution.evaluated_constraints is not the list both loops push to', body.site(sbi))
-    # ---------------- flags
     def flag_local_of(field):
         op = agg_field_operand(sol, field)
         if op is None or op['k'] not in ('copy', 'move'): return None, None
@@ -78,6 +34,8 @@ def solution_rules(ctx, body):
                 o = d['rv']['ops'][0]
                 if o['k'] in ('copy', 'move'): l = o['pl']['l']
         return l, op
+    all_loops = body.loops()
+    holders = {}
     for field, need, forbid in (('feasible_relaxed', ['constraints'], ['removed_constraints']), ('feasible', ['constraints', 'removed_constraints'], [])):
         l, op = flag_local_of(field)
         if l is None:
@@ -93,42 +51,127 @@ def solution_rules(ctx, body):
                   'Solution.%s does not depend on is_feasible of %s (depends on %s)' % (field, sorted(set(need) - srcs), sorted(srcs)), body.site(sbi))
         ctx.check(not (set(forbid) & srcs), R + '.flags/%s/independent-of' % field, 'T-CARRY', body.name,
                   'Solution.%s depends on is_feasible of %s' % (field, sorted(set(forbid) & srcs)), body.site(sbi))
-        # definitions of the flag: `true`, a copy of the other flag, or an is_feasible result under `if flag`
-        chain = flag_chain(body, l)
-        init_true = False
-        for fl in chain:
-            for k, bi, d in body.defs_of(fl):
-                if k != 'stmt': continue
-                rv = d['rv']
-                if rv['k'] == 'use' and rv['ops'][0]['k'] == 'const':
-                    if rv['ops'][0]['v'] == 'true': init_true = True
-                    else: ctx.bad(R + '.flags/%s/defs' % field, 'T-CONST', body.name, 'flag is assigned constant %s' % rv['ops'][0]['v'], body.site(bi))
-                elif rv['k'] == 'use' and rv['ops'][0]['k'] in ('copy', 'move'):
-                    src = rv['ops'][0]['pl']['l']
-                    if src in chain: continue
-                    ex = T.expr(body, rv['ops'][0])
-                    if T.expr_has_call(ex, 'is_feasible'):
-                        # must be guarded by `if flag` (sticky false) or combined with &&
-                        guarded = False
-                        for sb, neg in [(x, n) for fl2 in chain for x, n in T.bool_flow(body, fl2)]:
-                            tb, fb = T.switch_sides(body, sb, neg)
-                            if tb is not None and body.dominates(tb, bi) and (fb is None or not body.dominates(fb, bi)) and tb != fb: guarded = True
-                        ctx.check(guarded, R + '.flags/%s/sticky' % field, 'T-BRANCHFX', body.name, 'flag is overwritten by a later constraint (not guarded by `if flag`)', body.site(bi))
-                    else:
-                        ctx.bad(R + '.flags/%s/defs' % field, 'T-CARRY', body.name, 'flag is assigned from something other than is_feasible: %s' % T.expr_str(ex), body.site(bi))
-                elif rv['k'] in ('bin',) and rv['op'] in ('BitAnd',):
-                    pass
-                else:
-                    ctx.bad(R + '.flags/%s/defs' % field, 'T-CARRY', body.name, 'unexpected flag computation %s' % rv['k'], body.site(bi))
+        # where the value comes from: `true` before the loops; inside them only `false` or an is_feasible verdict
+        hs, leaves = origins(body, _whole(l))
+        holders[field] = hs
+        init_true = False; probs = []
+        for kind, bi, obj in leaves:
+            in_loop = any(bi in blocks for blocks in all_loops.values())
+            if kind == 'const' and obj.replace('const ', '') == 'true':
+                init_true = True
+                if in_loop: probs.append(('T-CONST', 'flag is reset to true inside a loop', bi))
+            elif kind == 'const' and obj.replace('const ', '') == 'false':
+                if not any(bi in lo[4] for lo in loops.values()): probs.append(('T-CONST', 'flag is assigned constant false outside the evaluation loops', bi))
+            elif kind == 'const': probs.append(('T-CONST', 'flag is assigned constant %s' % obj, bi))
+            elif kind == 'call' and obj in feas_calls: pass
+            elif kind == 'call': probs.append(('T-CARRY', 'flag is assigned from something other than is_feasible: %s' % obj.name[:80], bi))
+            else: probs.append(('T-CARRY', 'unexpected flag computation: %s' % (obj,), bi))
+        for tpl, msg, bi in probs: ctx.bad(R + '.flags/%s/defs' % field, tpl, body.name, msg, body.site(bi))
+        if not probs: ctx.ok(R + '.flags/%s/defs' % field, 'T-CARRY', body.site(sbi))
         ctx.check(init_true, R + '.flags/%s/starts-true' % field, 'T-CONST', body.name, 'flag does not start as true', body.site())
-    ctx.check(len(feas_calls) == 2, R + '.flags/two-feasibility-tests', 'T-CONST', body.name, 'expected two is_feasible calls, found %d' % len(feas_calls), body.site())
+    # ---- induction step, one per list
+    pe = PathEval(ctx, body)
+    for fld, field in (('constraints', 'feasible_relaxed'), ('removed_constraints', 'feasible')):
+        lo = loops.get(fld); rule = R + '.flags/%s/sticky' % field
+        if lo is None or field not in holders: continue
+        nextc, header, some_bb, none_bb, blocks = lo
+        tests = {c.bb for c in feas_calls if c.bb in blocks}
+        cands = []
+        for h in sorted(holders[field]):
+            if body.locals[h] != 'bool': continue
+            dbs = [bi for k, bi, d in body.defs_of(h)]
+            if any(bi in blocks for bi in dbs) and any(bi not in blocks for bi in dbs): cands.append(h)
+        if not cands:
+            ctx.bad(rule, 'T-BRANCHFX', body.name, 'no flag is carried through the loop over self.%s' % fld, body.site(nextc.bb)); continue
+        verdict = 'ok'; why = ''
+        for f in cands:
+            arr, rets, complete = pe.explore(some_bb, {f: ('b', False)}, stop={header})
+            vals = [e.get(f) for e in arr.get(header, [])]
+            if any(v is not None and v != ('b', False) for v in vals): verdict = 'bad'; why = 'flag is overwritten by a later constraint (once false it does not stay false)'; break
+            if not complete or any(v is None for v in vals): verdict = 'unknown'; why = 'value of the flag after an iteration that starts with `false` is not recognised'
+            arr, rets, complete = pe.explore(some_bb, {f: ('b', True)}, stop={header})
+            envs = arr.get(header, [])
+            def takes(e):
+                v = e.get(f)
+                for tb in tests:
+                    atom = ('payload', ('tok', tb))
+                    if v == atom: return True
+                    if v is not None and v[0] == 'b' and e.get(('fact', atom)) == v: return True
+                return None if v is None else False
+            got = [takes(e) for e in envs]
+            if not envs or any(g is False for g in got): verdict = 'bad'; why = 'while the flag is true it does not take the verdict of this iteration\'s is_feasible'; break
+            if not complete or any(g is None for g in got):
+                if verdict == 'ok': verdict = 'unknown'; why = 'value of the flag after an iteration that starts with `true` is not recognised'
+        if verdict == 'ok': ctx.ok(rule, 'T-BRANCHFX', body.site(nextc.bb), flag=cands)
+        elif verdict == 'bad': ctx.bad(rule, 'T-BRANCHFX', body.name, why, body.site(nextc.bb))
+        else:
+            # weaker condition kept: depends-on / independent-of / defs above
+            ctx.undecided(rule, 'T-BRANCHFX', body.site(nextc.bb), why); ctx.ok(rule + '~slice', 'T-BRANCHFX', body.site(nextc.bb))
+    in_loops = [c for c in feas_calls if any(c.bb in lo[4] for lo in loops.values())]
+    ctx.check(bool(feas_calls) and len(in_loops) == len(feas_calls), R + '.flags/tests-in-loops', 'T-LOOPMUST', body.name, 'an is_feasible test happens outside the two evaluation loops', body.site())
     for c in feas_calls:
-        const_arg(ctx, R + '.flags/tolerance', body, c, 1, TOL_FEAS, 'feasibility tolerance', tol=1e-9)
+        const_operand(ctx, R + '.flags/tolerance', body, c, 1, TOL_FEAS, 'feasibility tolerance', tol=1e-9)
         inloop = [f for f, lo in loops.items() if c.bb in lo[4]]
         if inloop:
             rs = ctx.S.slice_operand(body, c.args[0])
             evs = [x for x in rs.call_objs if x.item == 'evaluate' and x.bb in loops[inloop[0]][4]]
             ctx.check(bool(evs), R + '.flags/tests-this-iteration', 'T-CARRY', body.name, 'is_feasible is not applied to the constraint evaluated in this iteration', body.site(c.bb))
+
+
+def solution_rules(ctx, body):
+    R = 'C05'
+    # ---------------- bound check
+    cb = mustcall(ctx, R + '.bound/check_bound-dominates', body, lambda c: c.item == 'check_bound' and c.path.endswith('Instance>::check_bound'), 'self.check_bound(state, 1e-7)')
+    if cb is not None:
+        const_operand(ctx, R + '.bound/tolerance', body, cb, 2, TOL_BOUND, 'bound tolerance', tol=1e-9)
+        ctx.check(T.access_path(body, cb.args[0])[1] == 1 and T.access_path(body, cb.args[1])[1] == 2, R + '.bound/args', 'T-CARRY', body.name, 'check_bound is not applied to (self, state)', body.site(cb.bb))
+        # it must come before anything is evaluated
+        evs = [c for c in body.calls if c.item == 'evaluate' and 'Evaluate' in (c.trait or '')]
+        ctx.check(all(body.dominates(cb.bb, c.bb) for c in evs), R + '.bound/first', 'T-GUARD', body.name, 'an evaluation happens before the bound check', body.site(cb.bb))
+    # ---------------- coverage of the message
+    cover(ctx, R + '.cover', body, INST, exempt=('description', 'sense', 'parameters', 'constraint_hints'))
+    # ---------------- the Solution aggregate
+    aggs = find_aggregates(body, 'v1::Solution')
+    if len(aggs) != 1:
+        ctx.bad(R + '.solution/aggregate', 'ANCHOR', body.name, 'expected one v1::Solution aggregate, found %d' % len(aggs)); return
+    sbi, sol = aggs[0]
+    ctx.check(all(body.dominates(sbi, e) for e in body.strict_ok_exits()), R + '.solution/on-every-success-path', 'T-MUSTCALL', body.name, 'Solution aggregate does not dominate the Ok-exit', body.site(sbi))
+    # ---------------- both lists: evaluate every element, push it exactly once
+    pushes = [c for c in body.calls if c.item == 'push' and re.search(r'Vec::<(v1::EvaluatedConstraint|T)>::push', c.name) and 'EvaluatedConstraint' in body.locals[c.args[0]['pl']['l']] + c.name]
+    feas_calls = [c for c in body.calls if c.item == 'is_feasible' and c.path.endswith('EvaluatedConstraint>::is_feasible')]
+    loops = {}
+    for field, ty in (('constraints', CON), ('removed_constraints', RC)):
+        ls = [l for l in loops_over(ctx, body, INST, field) if item_evaluations(body, l, ty)]
+        ctx.check(len(ls) >= 1, R + '.lists/%s/loop' % field, 'T-LOOPMUST', body.name, 'no loop over self.%s that evaluates its items' % field, body.site())
+        if not ls: continue
+        lo = ls[0]; loops[field] = lo
+        nextc, header, some_bb, none_bb, blocks = lo
+        ev = item_evaluations(body, lo, ty)
+        for c in ev:
+            ctx.check(nextc.dst['l'] in ctx.S.slice_operand(body, c.args[0]).locals and T.access_path(body, c.args[1])[1] == 2, R + '.lists/%s/evaluate-item-at-state' % field, 'T-CARRY', body.name,
+                      'evaluate is not applied to (loop item, state)', body.site(c.bb))
+            error_propagates(ctx, R + '.lists/%s/error-propagates' % field, body, [c], 'constraint evaluation')
+        loop_must(ctx, R + '.lists/%s/evaluate-every' % field, body, lo, lambda c: c in ev, 'evaluate')
+        ps = [c for c in pushes if c.bb in blocks]
+        # at most once: no second push is reachable from a push without coming round the loop
+        twice = [c for c in ps if c.target >= 0 and any(q.bb in body.reach([c.target], stop={header}) for q in ps)]
+        ctx.check(bool(ps) and not twice, R + '.lists/%s/one-push' % field, 'T-LOOPMUST', body.name, 'an evaluated constraint is pushed %s per iteration' % ('twice' if twice else 'never'), body.site(nextc.bb))
+        loop_must(ctx, R + '.lists/%s/push-every' % field, body, lo, lambda c: c in ps, 'evaluated_constraints.push')
+        for c in ps:
+            s = ctx.S.slice_operand(body, c.args[1])
+            ctx.check(any(e in s.call_objs for e in ev) and not any(x.item == 'clone' for x in s.call_objs), R + '.lists/%s/push-is-result' % field, 'T-CARRY', body.name, 'pushed value is not the evaluation result', body.site(c.bb))
+            # the pushed element is not modified between evaluation and push
+            chain = {l for l in s.locals if re.fullmatch(r'v1::EvaluatedConstraint', body.locals[l])}
+            touched = [body.site(bi) for bi, st in body.stmts() if (st['rv']['k'] == 'ref' and st['rv'].get('mut') and st['rv']['pl']['l'] in chain) or (st['dst']['p'] and st['dst']['l'] in chain)]
+            ctx.check(not touched, R + '.lists/%s/push-unmodified' % field, 'T-CARRY', body.name, 'evaluated constraint is modified before it is pushed (%s)' % touched, body.site(c.bb))
+        ctx.check(all(body.dominates(header, e) for e in body.strict_ok_exits()), R + '.lists/%s/dominates' % field, 'T-MUSTCALL', body.name, 'loop does not dominate the Ok-exit', body.site(nextc.bb))
+    stray = [c for c in pushes if not any(c.bb in lo[4] for lo in loops.values())]
+    ctx.check(bool(pushes) and not stray, R + '.lists/no-other-push', 'T-LOOPMUST', body.name, 'the evaluated list is also pushed to outside the two evaluation loops (%d)' % len(stray), body.site(stray[0].bb) if stray else body.site())
+    ec = carry_field(ctx, R + '.lists/solution-field', body, sol, 'evaluated_constraints', need_fields=[(INST, 'constraints'), (INST, 'removed_constraints')], site=body.site(sbi))
+    if ec is not None:
+        ctx.check(all(p in ec.call_objs for p in pushes), R + '.lists/solution-field-is-the-list', 'T-CARRY', body.name, 'Solution.evaluated_constraints is not the list both loops push to', body.site(sbi))
+    # ---------------- flags
+    flag_rules(ctx, body, sol, sbi, loops, feas_calls)
     # ---------------- objective
     oop = agg_field_operand(sol, 'objective')
     ex = T.expr(body, oop, depth=14)
@@ -139,7 +182,7 @@ def solution_rules(ctx, body):
     fs = [f for a, f in T.own_fields(ex) if a == 'tuple']
     ctx.check(okobj and fs[-1:] == ['0'], R + '.objective/is-objective-value', 'T-CARRY', body.name, 'Solution.objective is not `.0` of self.objective().evaluate(state): %s' % T.expr_str(ex), body.site(sbi))
     objev = [c for c in body.calls if c.item == 'evaluate' and re.search(r'<v1::Function as evaluate::Evaluate>::evaluate', c.name)]
-    errflow_calls(ctx, R + '.objective/error-propagates', body, objev, 'objective evaluation')
+    error_propagates(ctx, R + '.objective/error-propagates', body, objev, 'objective evaluation')
     # ---------------- reported state
     carry_field(ctx, R + '.state/decision_variables', body, sol, 'decision_variables', need_fields=[(INST, 'decision_variables')], site=body.site(sbi))
     st = carry_field(ctx, R + '.state/field', body, sol, 'state', need_params=[2], site=body.site(sbi))
@@ -147,43 +190,59 @@ def solution_rules(ctx, body):
     if ed is not None and st is not None:
         ctx.check(ctx.S.slice_operand(body, ed.args[0]).has_field(INST, 'decision_variable_dependency'), R + '.state/eval_dependencies/map', 'T-CARRY', body.name, 'eval_dependencies is not given the dependency map', body.site(ed.bb))
         ctx.check(ed in st.call_objs, R + '.state/eval_dependencies/same-state', 'T-CARRY', body.name, 'the reported state is not the one completed by eval_dependencies', body.site(ed.bb))
-    # substituted values
+    # substituted values: for every variable with a fixed value, state[v.id] = that value, before the dependencies are evaluated
     dvl = loops_over(ctx, body, INST, 'decision_variables')
-    ins = [c for c in body.calls if c.item == 'insert' and 'HashMap::<u64, f64>::insert' in c.name]
-    sub_ok = False
+    ins = [c for c in body.calls if c.item == 'insert' and re.search(r'HashMap::<(u64, f64|K, V)>::insert', c.name) and len(c.args) == 3]
+    sub = None          # (how, loop, insert)
     for lo in dvl:
         for c in ins:
             if c.bb not in lo[4]: continue
             kf = T.access_path(body, c.args[1])[0]; vex = T.expr(body, c.args[2])
             if (DV, 'id') in kf and any(f == 'substituted_value' for a, f in T.expr_fields(vex)):
-                # on the Some arm, every iteration with a substituted value reaches the insert
+                # the pairing (v.id, v.substituted_value) is visible here: then it is decided here.
+                # On the Some arm, every iteration with a substituted value reaches the insert
                 arms = [sm for sb, sm, nn in option_field_tests(body, DV, 'substituted_value') if sb in lo[4]]
-                if arms and all(T.must_pass(body, a, {lo[1]}, {c.bb}) for a in arms):
-                    sub_ok = True
-                    ctx.check(st is not None and c in st.call_objs, R + '.state/substituted/same-state', 'T-CARRY', body.name, 'substituted values are inserted into another map', body.site(c.bb))
-                    if ed is not None:
-                        ctx.check(body.dominates(lo[1], ed.bb), R + '.state/substituted/before-dependencies', 'T-MUSTCALL', body.name, 'substituted values are inserted after eval_dependencies', body.site(c.bb))
-    ctx.check(sub_ok, R + '.state/substituted/inserted', 'T-BRANCHFX', body.name, 'previously fixed values (substituted_value) are not inserted into the reported state', body.site())
-    # vacant ids filled with nearest_to_zero of the variable's bound
-    vac = [c for c in body.calls if c.item == 'insert' and 'VacantEntry' in c.name]
-    fill_ok = False
+                if arms and all(T.must_pass(body, a, {lo[1]}, {c.bb}) for a in arms): sub = ('precise', lo, c)
+                elif sub is None or sub[0] == 'slice': sub = ('skips', lo, c)
+            elif sub is None:
+                # weaker: key and value of the insert derive from v.id / v.substituted_value of the variables iterated
+                # (the pairing happens in a closure or a binding the access path cannot follow)
+                ks = ctx.S.slice_operand(body, c.args[1]); vs = ctx.S.slice_operand(body, c.args[2])
+                if ks.has_field(DV, 'id') and vs.has_field(DV, 'substituted_value') and not vs.has_call(r'nearest_to_zero'): sub = ('slice', lo, c)
+    rule = R + '.state/substituted/inserted'
+    if sub is None:
+        ctx.bad(rule, 'T-BRANCHFX', body.name, 'previously fixed values (substituted_value) are not inserted into the reported state', body.site())
+    else:
+        how, lo, c = sub
+        if how == 'precise': ctx.ok(rule, 'T-BRANCHFX', body.site(c.bb))
+        elif how == 'skips': ctx.bad(rule, 'T-BRANCHFX', body.name, 'a variable with a substituted value can skip the insert into the reported state', body.site(c.bb))
+        else:
+            ctx.undecided(rule, 'T-BRANCHFX', body.site(c.bb), 'the (id, substituted_value) pairs reach the insert through an adaptor / binding that is not followed step by step; decided on the slice only')
+            ctx.ok(rule + '~slice', 'T-BRANCHFX', body.site(c.bb))
+        ctx.check(st is not None and c in st.call_objs, R + '.state/substituted/same-state', 'T-CARRY', body.name, 'substituted values are inserted into another map', body.site(c.bb))
+        if ed is not None:
+            ctx.check(body.dominates(lo[1], ed.bb) and ed.bb not in lo[4], R + '.state/substituted/before-dependencies', 'T-MUSTCALL', body.name, 'substituted values are inserted after eval_dependencies', body.site(c.bb))
+    # ids the state still lacks are filled with nearest_to_zero of the variable's own bound -- only if absent
+    fill = None
     for lo in dvl:
-        for c in vac:
-            if c.bb not in lo[4]: continue
-            vex = T.expr(body, c.args[1], depth=14)
-            ent = ctx.S.slice_operand(body, c.args[0])
+        for a in absent_inserts(ctx, body, lo[4]):
+            c = a['call']
+            vex = T.expr(body, a['value'], depth=14)
             ntz = [x for x in T.expr_walk(vex) if x[0] == 'call' and x[1] == 'nearest_to_zero']
-            tb = [x for x in T.expr_walk(vex) if x[0] == 'call' and re.search(r"TryFrom<&('\w+ )?v1::DecisionVariable>>::try_from|TryInto<bound::Bound>>::try_into", x[2])]
-            keyed = any(x.item == 'entry' and (DV, 'id') in T.access_path(body, x.args[1])[0] for x in ent.call_objs)
-            if ntz and tb and keyed and lo[0].dst['l'] in ctx.S.slice_operand(body, c.args[1]).locals:
-                fill_ok = True
-                ctx.check(st is not None and c in st.call_objs, R + '.state/fill/same-state', 'T-CARRY', body.name, 'irrelevant variables are filled into another map', body.site(c.bb))
-                if ed is not None:
-                    ctx.check(body.dominates(ed.bb, lo[1]), R + '.state/fill/after-dependencies', 'T-MUSTCALL', body.name, 'fill happens before dependencies are evaluated', body.site(c.bb))
-                ctx.check(all(body.dominates(lo[1], e) for e in body.strict_ok_exits()), R + '.state/fill/dominates', 'T-MUSTCALL', body.name, 'fill loop does not dominate the Ok-exit', body.site(c.bb))
-    ctx.check(fill_ok, R + '.state/fill/nearest_to_zero', 'T-BRANCHFX', body.name, 'unused variables are not completed with Bound::nearest_to_zero of their own bound', body.site())
-    tbs = [c for c in body.calls if re.search(r"TryFrom<&('\w+ )?v1::DecisionVariable>>::try_from|TryInto<bound::Bound>>::try_into", c.name)]
-    errflow_calls(ctx, R + '.state/fill/bound-error', body, tbs, 'bound conversion')
+            tb = [x for x in T.expr_walk(vex) if x[0] == 'call' and CONV_DV.search(x[2])]
+            keyed = (DV, 'id') in T.access_path(body, a['key'])[0] and lo[0].dst['l'] in ctx.S.slice_operand(body, a['key']).locals
+            if a['how'] == 'contains_key':
+                keyed = keyed and (DV, 'id') in T.access_path(body, a['test'].args[1])[0] and lo[0].dst['l'] in ctx.S.slice_operand(body, a['test'].args[1]).locals
+            if ntz and tb and keyed and lo[0].dst['l'] in ctx.S.slice_operand(body, a['value']).locals: fill = (lo, c)
+    if fill is not None:
+        lo, c = fill
+        ctx.check(st is not None and c in st.call_objs, R + '.state/fill/same-state', 'T-CARRY', body.name, 'irrelevant variables are filled into another map', body.site(c.bb))
+        if ed is not None:
+            ctx.check(body.dominates(ed.bb, lo[1]), R + '.state/fill/after-dependencies', 'T-MUSTCALL', body.name, 'fill happens before dependencies are evaluated', body.site(c.bb))
+        ctx.check(all(body.dominates(lo[1], e) for e in body.strict_ok_exits()), R + '.state/fill/dominates', 'T-MUSTCALL', body.name, 'fill loop does not dominate the Ok-exit', body.site(c.bb))
+    ctx.check(fill is not None, R + '.state/fill/nearest_to_zero', 'T-BRANCHFX', body.name, 'unused variables are not completed (only where the state has no value) with Bound::nearest_to_zero of their own bound', body.site())
+    tbs = [c for c in body.calls if CONV_DV.search(c.name)]
+    error_propagates(ctx, R + '.state/fill/bound-error', body, tbs, 'bound conversion')
 
 
 def check_bound_rules(ctx):
@@ -191,25 +250,30 @@ def check_bound_rules(ctx):
     b = ctx.method(R + '/check_bound/anchor', INST, 'check_bound')
     if b is None: return
     gb = mustcall(ctx, R + '/check_bound/get_bounds', b, lambda c: c.item == 'get_bounds', 'self.get_bounds()?')
+    # every entry of the state is visited; inside, the value is tested against the bound stored under the entry's id
     loops = [lo for lo in T.for_loops(b) if ctx.S.slice_operand(b, lo[0].args[0]).has_field('v1::State', 'entries')]
-    ctx.check(len(loops) == 1, R + '/check_bound/loop', 'T-LOOPMUST', b.name, 'expected one loop over state.entries, found %d' % len(loops), b.site())
-    for lo in loops:
+    ctx.check(bool(loops), R + '/check_bound/loop', 'T-LOOPMUST', b.name, 'no loop over state.entries', b.site())
+    tests = [(lo, c) for lo in loops for c in b.calls if c.bb in lo[4] and c.item == 'contains' and c.path.endswith('Bound::contains')]
+    ctx.check(bool(tests) or not loops, R + '/check_bound/contains', 'T-GUARD', b.name, 'no Bound::contains test inside the loop over state.entries', b.site(loops[0][0].bb) if loops else b.site())
+    for lo, c in tests:
         nextc, header, some_bb, none_bb, blocks = lo
-        cont = [c for c in b.calls if c.bb in blocks and c.item == 'contains' and c.path.endswith('Bound::contains')]
-        ctx.check(len(cont) == 1, R + '/check_bound/contains', 'T-GUARD', b.name, 'expected one Bound::contains test in the loop, found %d' % len(cont), b.site(nextc.bb))
-        for c in cont:
-            okg = any(g.requires(True) for g in T.guards_from_call(b, c))
-            ctx.check(okg, R + '/check_bound/violation-is-error', 'T-GUARD', b.name, 'a value outside its bound does not lead to an error', b.site(c.bb))
-            ctx.check(nextc.dst['l'] in ctx.S.slice_operand(b, c.args[1]).locals, R + '/check_bound/value', 'T-CARRY', b.name, 'contains() is not applied to the state value', b.site(c.bb))
-            ctx.check(T.strip_wrappers(T.expr(b, c.args[2])) == ('place', 3, []), R + '/check_bound/atol', 'T-CARRY', b.name, 'contains() does not receive the given tolerance', b.site(c.bb))
-            rs = ctx.S.slice_operand(b, c.args[0])
-            gets = [x for x in rs.call_objs if x.item == 'get' and 'HashMap' in x.name]
-            ctx.check(bool(gets) and gb is not None and gb in rs.call_objs and nextc.dst['l'] in rs.locals, R + '/check_bound/bound-of-same-id', 'T-CARRY', b.name, 'the bound is not looked up under the entry\'s own id', b.site(c.bb))
-            # every entry with a known bound reaches the test: Some arm of the lookup
-            for gcall in gets:
-                arms = T.option_arms(b, gcall.dst['l'])
-                ok = bool(arms) and all(T.must_pass(b, m.get(1, els), {header}, {c.bb}) for sb, m, els in arms)
-                ctx.check(ok, R + '/check_bound/every-bounded-entry', 'T-LOOPMUST', b.name, 'an entry with a bound can skip the test', b.site(gcall.bb))
+        # `if !contains { bail! }`  ==  `ensure!(contains)`  ==  find / find_map(.. (!contains).then_some(..)) + `match Some(..) => Err`:
+        # decided on paths: a `false` verdict ends in an error on every path, a `true` verdict does not
+        okg = any(g.requires(True) for g in T.guards_from_call(b, c))
+        if not okg: okg = false_leads_to_error(ctx, b, c, False) is True and false_leads_to_error(ctx, b, c, True) is False
+        ctx.check(okg, R + '/check_bound/violation-is-error', 'T-GUARD', b.name, 'a value outside its bound does not lead to an error', b.site(c.bb))
+        ctx.check(nextc.dst['l'] in ctx.S.slice_operand(b, c.args[1]).locals, R + '/check_bound/value', 'T-CARRY', b.name, 'contains() is not applied to the state value', b.site(c.bb))
+        ctx.check(T.strip_wrappers(T.expr(b, c.args[2])) == ('place', 3, []), R + '/check_bound/atol', 'T-CARRY', b.name, 'contains() does not receive the given tolerance', b.site(c.bb))
+        rs = ctx.S.slice_operand(b, c.args[0])
+        gets = [x for x in rs.call_objs if x.item == 'get' and 'HashMap' in x.name]
+        ctx.check(bool(gets) and gb is not None and gb in rs.call_objs and nextc.dst['l'] in rs.locals, R + '/check_bound/bound-of-same-id', 'T-CARRY', b.name, 'the bound is not looked up under the entry\'s own id', b.site(c.bb))
+        # every entry with a known bound reaches the test: with the lookup answering Some(..) no path comes round the loop
+        # (or leaves it) without passing the test   [`if let Some(b) = m.get(k)` == `let b = m.get(k)?` in a closure == `match`]
+        for gcall in gets:
+            if gcall.bb not in blocks or gcall.target < 0: continue
+            arr, rets, complete = PathEval(ctx, b).explore(gcall.target, {gcall.dst['l']: ('d', 1, None)}, stop={header, c.bb})
+            skipped = bool(arr.get(header)) or any(result_kind(e) == 'ok' for e in rets)
+            ctx.check(complete and not skipped and bool(arr.get(c.bb)), R + '/check_bound/every-bounded-entry', 'T-LOOPMUST', b.name, 'an entry with a bound can skip the test', b.site(gcall.bb))
         si = ctx.S.slice_operand(b, nextc.args[0])
         restr = sorted({x.item for x in si.call_objs if x.item in RESTRICTING and 'Iterator' in (x.trait or '')})
         ctx.check(not restr and 2 in si.params and si.has_field('v1::State', 'entries'), R + '/check_bound/all-entries', 'T-LOOPMUST', b.name, 'loop does not visit all state entries %s' % restr, b.site(nextc.bb))
@@ -242,13 +306,13 @@ def check_bound_rules(ctx):
     tabs = {}
     for nm, fb in (('get_bounds', gbb), ('try_from', tfb)):
         if fb is None: continue
-        tabs[nm] = bound_default_table(ctx, R + '/' + nm, fb)
+        tabs[nm] = bound_default_table(ctx, R + '/' + nm, fb, sibling=tfb if nm == 'get_bounds' else None)
     if len(tabs) == 2:
         ctx.check(tabs['get_bounds'] == tabs['try_from'], R + '/sibling/unset-bound-table', 'T-SIBLING', 'get_bounds vs TryFrom<&DecisionVariable>', 'tables differ: %s' % tabs)
     if gbb is not None:
         loops = loops_over(ctx, gbb, INST, 'decision_variables')
-        ctx.check(len(loops) == 1, R + '/get_bounds/loop', 'T-LOOPMUST', gbb.name, 'expected one loop over decision_variables', gbb.site())
-        for lo in loops:
+        ctx.check(bool(loops), R + '/get_bounds/loop', 'T-LOOPMUST', gbb.name, 'no loop over decision_variables', gbb.site())
+        for lo in loops[:1]:
             loop_must(ctx, R + '/get_bounds/every-variable', gbb, lo, lambda c: c.item == 'insert' and 'HashMap' in c.name, 'bounds.insert')
     # nearest_to_zero branch table
     nz = ctx.method('C05.state/nearest_to_zero/anchor', 'bound::Bound', 'nearest_to_zero')
@@ -266,35 +330,51 @@ def check_bound_rules(ctx):
                   'nearest_to_zero is not {lower>=0 => lower; upper<=0 => upper; else 0}: %s else %s' % (rows, consts), nz.site(), table=rows)
 
 
-def bound_default_table(ctx, rule, fb):
-    """Some(b) => converted through Bound::new / try_from; None & Binary => [0,1]; otherwise Bound::default()"""
+KIND = 'v1::decision_variable::Kind'
+
+
+def _unset_bound_table(ctx, fb):
+    """{'some': .., 'none-binary': .., 'none-other': ..} of a function that turns a DecisionVariable into its Bound,
+    the number of `Some(bound)` tests found and the conversion calls on the Some side"""
     tab = {}
-    # the Option<v1::Bound> discriminant test
     arms = [(sm, nn) for sb, sm, nn in option_field_tests(fb, DV, 'bound')]
-    ctx.check(len(arms) == 1, rule + '/bound-option-test', 'T-BRANCHFX', fb.name, 'expected one `if let Some(bound) = &v.bound`, found %d' % len(arms), fb.site())
-    if len(arms) != 1: return tab
+    if len(arms) != 1: return tab, len(arms), []
     some_bb, none_bb = arms[0]
     hdrs = {h for h in fb.loops()}
     sr = T.reach_cp(fb, [some_bb], stop=hdrs) - T.reach_cp(fb, [none_bb], stop=hdrs)
     nr = T.reach_cp(fb, [none_bb], stop=hdrs) - T.reach_cp(fb, [some_bb], stop=hdrs)
     conv = [c for c in fb.calls if c.bb in sr and re.search(r'TryFrom<v1::Bound>>::try_from|TryInto<bound::Bound>>::try_into|Bound::new$', c.name)]
     tab['some'] = 'converted' if conv else 'other'
-    for c in conv:
-        errflow_calls(ctx, rule + '/some/error-propagates', fb, [c], 'bound conversion') if fb.hdr.get('item') != 'try_from' else None
-    # None side: kind() == Binary => new(0,1) else default()
-    kc = [c for c in fb.calls if c.bb in nr and c.item in ('eq', 'ne') and re.search(r'decision_variable::Kind$', c.self_ty or '')]
-    binv = None
-    for c in kc:
-        vs = [enum_variant_of_operand(ctx, fb, a) for a in c.args]
-        if any(v and v.endswith('Kind::Binary') for v in vs):
-            for g in T.guards_from_call(fb, c):
-                tb, fbb = (g.true_bb, g.false_bb) if c.item == 'eq' else (g.false_bb, g.true_bb)
-                tr = T.reach_cp(fb, [tb], stop=hdrs) - T.reach_cp(fb, [fbb], stop=hdrs); fr = T.reach_cp(fb, [fbb], stop=hdrs) - T.reach_cp(fb, [tb], stop=hdrs)
-                news = [x for x in fb.calls if x.bb in tr and x.path.endswith('Bound::new')]
-                v01 = [tuple(T.f64_const(a['v']) if a['k'] == 'const' else None for a in x.args) for x in news]
-                defs = [x for x in fb.calls if x.bb in fr and x.item == 'default' and 'bound::Bound' in x.name]
-                tab['none-binary'] = v01[0] if len(v01) == 1 else tuple(v01)
-                tab['none-other'] = 'Bound::default' if defs and not [x for x in fb.calls if x.bb in fr and x.path.endswith('Bound::new')] else 'other'
+    # None side: kind == Binary => new(0,1) else default();  the kind test in any idiom (==, match, matches!)
+    for var, sb, tb, others in enum_tests(ctx, fb, KIND, blocks=nr):
+        if var != 'Binary': continue
+        tr = T.reach_cp(fb, [tb], stop=hdrs) - T.reach_cp(fb, others, stop=hdrs); fr = T.reach_cp(fb, others, stop=hdrs) - T.reach_cp(fb, [tb], stop=hdrs)
+        news = [x for x in fb.calls if x.bb in tr and x.path.endswith('Bound::new')]
+        v01 = [tuple(f64_of_operand(fb, a) for a in x.args) for x in news]
+        defs = [x for x in fb.calls if x.bb in fr and x.item == 'default' and 'bound::Bound' in x.name]
+        tab['none-binary'] = v01[0] if len(v01) == 1 else tuple(v01)
+        tab['none-other'] = 'Bound::default' if defs and not [x for x in fb.calls if x.bb in fr and x.path.endswith('Bound::new')] else 'other'
+    return tab, 1, conv
+
+
+def bound_default_table(ctx, rule, fb, sibling=None):
+    """Some(b) => converted through Bound::new / try_from; None & Binary => [0,1]; otherwise Bound::default().
+    The case split is either written out in `fb` or `fb` hands the variable to the sibling conversion
+    `Bound::try_from(&DecisionVariable)` (`v.try_into()`), whose table then is the table of `fb`."""
+    tab, ntests, conv = _unset_bound_table(ctx, fb)
+    deleg = []
+    if ntests == 0 and sibling is not None:
+        deleg = [c for c in fb.calls if CONV_DV.search(c.name) and (ctx.F.bodies.get(c.path) is sibling or ctx.F.bodies.get(c.name) is sibling or CONV_DV.search(c.name))]
+        deleg = [c for c in deleg if any(lo[0].dst['l'] in ctx.S.slice_operand(fb, c.args[0]).locals for lo in loops_over(ctx, fb, INST, 'decision_variables'))]
+    if deleg:
+        tab, n2, _ = _unset_bound_table(ctx, sibling)
+        ctx.ok(rule + '/bound-option-test', 'T-BRANCHFX', fb.site(deleg[0].bb), delegated=sibling.name)
+        error_propagates(ctx, rule + '/some/error-propagates', fb, deleg[:1], 'bound conversion')
+    else:
+        ctx.check(ntests == 1, rule + '/bound-option-test', 'T-BRANCHFX', fb.name, 'expected one `if let Some(bound) = &v.bound`, found %d' % ntests, fb.site())
+        if ntests != 1: return tab
+        if fb.hdr.get('item') != 'try_from':
+            for c in conv: error_propagates(ctx, rule + '/some/error-propagates', fb, [c], 'bound conversion')
     ctx.check(tab.get('some') == 'converted' and tab.get('none-binary') == (0.0, 1.0) and tab.get('none-other') == 'Bound::default', rule + '/table', 'T-BRANCHFX', fb.name,
               'unset-bound table is %s, expected Some=>converted, None+Binary=>[0,1], None=>Bound::default()' % tab, fb.site(), table=str(tab))
     return tab
@@ -319,7 +399,7 @@ def constraint_rules(ctx):
             rr = agg_field_operand(st, 'removed_reason')
             ctx.check(T.expr(b, rr)[0] == 'agg' and T.expr(b, rr)[1].endswith('Option::None'), R + '/Constraint::evaluate/no-reason', 'T-CONST', b.name, 'active constraint gets a removal reason', b.site(bi))
         fe = [c for c in b.calls if c.item == 'evaluate' and 'v1::Function as evaluate::Evaluate' in c.name]
-        errflow_calls(ctx, R + '/Constraint::evaluate/error-propagates', b, fe, 'function evaluation')
+        error_propagates(ctx, R + '/Constraint::evaluate/error-propagates', b, fe, 'function evaluation')
     b = ctx.method(R + '/RemovedConstraint::evaluate/anchor', RC, 'evaluate', trait='Evaluate')
     if b is not None:
         ce = [c for c in b.calls if c.item == 'evaluate' and re.search(r'<v1::Constraint as evaluate::Evaluate>::evaluate', c.name)]
@@ -327,9 +407,9 @@ def constraint_rules(ctx):
         for c in ce:
             fs, root, calls = T.access_path(b, c.args[0])
             ctx.check((RC, 'constraint') in fs and T.access_path(b, c.args[1])[1] == 2, R + '/RemovedConstraint::evaluate/args', 'T-CARRY', b.name, 'not (self.constraint, state)', b.site(c.bb))
-            errflow_calls(ctx, R + '/RemovedConstraint::evaluate/error-propagates', b, [c], 'constraint evaluation')
+            error_propagates(ctx, R + '/RemovedConstraint::evaluate/error-propagates', b, [c], 'constraint evaluation')
         opt = [c for c in b.calls if c.item == 'as_ref' and 'Option::<v1::Constraint>' in c.name]
-        errflow_calls(ctx, R + '/RemovedConstraint::evaluate/missing-is-error', b, opt, 'missing constraint')
+        error_propagates(ctx, R + '/RemovedConstraint::evaluate/missing-is-error', b, opt, 'missing constraint')
         for f in ('removed_reason', 'removed_reason_parameters'):
             ws = [(bi, st) for bi, st in b.stmts() if st['dst']['p'] and fields_of_place(st['dst'])[-1:] == [(EC, f)]]
             ok = False
@@ -359,4 +439,4 @@ def check(ctx):
     if f is not None:
         check_feasibility_rule(ctx, 'C05.rule/EvaluatedConstraint::is_feasible', f, 'given')
         # atol > 0 guard is harmless; nothing else may reject
-    ctx.floor('C05.bound', 20); ctx.floor('C05.lists', 35); ctx.floor('C05.flags', 12); ctx.floor('C05.state', 12); ctx.floor('C05.rule', 6); ctx.floor('C05.cover', 5); ctx.floor('C05.objective', 2)
+    ctx.floor('C05.bound', 24); ctx.floor('C05.lists', 43); ctx.floor('C05.flags', 15); ctx.floor('C05.state', 14); ctx.floor('C05.rule', 6); ctx.floor('C05.cover', 5); ctx.floor('C05.objective', 2)
